@@ -3,6 +3,6 @@ NEXT Next
 CONSTANTS
   MaxTargets = 2
   ChainAny = FALSE
-  FlagBlind = FALSE
-INVARIANT AppliedIsIntendedStrict
+  FlagBlind = TRUE
+INVARIANT AppliedIsIntended
 CHECK_DEADLOCK FALSE
